@@ -105,8 +105,11 @@ impl Valid for ControlChange14BitMessage {
         ensure!(n <= 31, "ControlChange14BitMessage/invalid_msb_controller_accepted", "deserialized {:?} (MSB controller number {} > 31)", self, n);
         let built = api(|| ControlChange14BitMessage::new(h_ch(c), h_cn(n), h_u14(v)));
         ensure!(built == *self, "ControlChange14BitMessage/not_constructible", "{:?} vs {:?}", self, built);
-        let _ = api(|| self.lsb_controller_number());
+        let lsb = api(|| self.lsb_controller_number()).get();
+        ensure!(lsb == n + 32, "ControlChange14BitMessage/lsb_controller_is_not_msb_plus_32", "deserialized {:?}: LSB controller {} for MSB controller {}", self, lsb, n);
         let m: [RawShortMessage; 2] = api(|| self.to_short_messages());
+        let b1 = m[1].to_bytes();
+        ensure!(b1.1.get() == n + 32, "ControlChange14BitMessage/encodes_with_wrong_lsb_controller", "{:?} encodes its LSB on controller {}", self, b1.1.get());
         for x in m.iter() {
             x.valid()?;
         }
@@ -130,6 +133,31 @@ impl Valid for ParameterNumberMessage {
         Ok(())
     }
 }
+
+// compile-time probe: is ShortMessageType deserializable in this feature configuration? (it is with
+// serde_repr; with `serde` alone it is not - unless a later version adds an impl, which is then checked)
+trait ProbeDeYes<T> {
+    fn de_value(&self, v: &Value) -> Option<Option<T>>;
+    fn de_u8(&self, b: u8) -> Option<Option<T>>;
+}
+impl<T: DeserializeOwned> ProbeDeYes<T> for crate::impls::Probe<T> {
+    fn de_value(&self, v: &Value) -> Option<Option<T>> {
+        Some(serde_json::from_value::<T>(v.clone()).ok())
+    }
+    fn de_u8(&self, b: u8) -> Option<Option<T>> {
+        let d: <u8 as IntoDeserializer<VErr>>::Deserializer = b.into_deserializer();
+        Some(T::deserialize(d).ok())
+    }
+}
+trait ProbeDeNo<T> {
+    fn de_value(&self, _v: &Value) -> Option<Option<T>> {
+        None
+    }
+    fn de_u8(&self, _b: u8) -> Option<Option<T>> {
+        None
+    }
+}
+impl<T> ProbeDeNo<T> for &crate::impls::Probe<T> {}
 
 // ---------------------------------------------------------------------------------------------
 // Feeding inputs
@@ -217,6 +245,33 @@ fn int_typed<N: Nt + Valid + DeserializeOwned>(src: &str, x: i128) -> CheckResul
     Ok(!in_range)
 }
 
+
+/// non-integer typed carriers (serde's own value deserializers): strings, chars, floats, bools,
+/// bytes, unit. Whatever is accepted must be in range.
+fn int_other_carriers<N: Nt + Valid + DeserializeOwned>(k: usize) -> CheckResult {
+    use serde::de::value::{BoolDeserializer, BytesDeserializer, CharDeserializer, F32Deserializer, F64Deserializer, StrDeserializer, StringDeserializer, UnitDeserializer};
+    let strings = ["0", "1", "15", "16", "127", "128", "200", "255", "256", "16383", "16384", "65535", "65536", "-1", "+5", "", " 7", "1e2", "0x10", "99999999999"];
+    let r: Option<N> = match k {
+        0..=19 => N::deserialize(StrDeserializer::<VErr>::new(strings[k])).ok(),
+        20..=39 => N::deserialize(StringDeserializer::<VErr>::new(strings[k - 20].to_string())).ok(),
+        40..=59 => N::deserialize(BytesDeserializer::<VErr>::new(strings[k - 40].as_bytes())).ok(),
+        60 => N::deserialize(BoolDeserializer::<VErr>::new(true)).ok(),
+        61 => N::deserialize(BoolDeserializer::<VErr>::new(false)).ok(),
+        62 => N::deserialize(CharDeserializer::<VErr>::new('7')).ok(),
+        63 => N::deserialize(CharDeserializer::<VErr>::new('\u{ff}')).ok(),
+        64 => N::deserialize(F64Deserializer::<VErr>::new(200.0)).ok(),
+        65 => N::deserialize(F64Deserializer::<VErr>::new(70000.0)).ok(),
+        66 => N::deserialize(F64Deserializer::<VErr>::new(-1.0)).ok(),
+        67 => N::deserialize(F32Deserializer::<VErr>::new(16384.0)).ok(),
+        68 => N::deserialize(F64Deserializer::<VErr>::new(5.0)).ok(),
+        _ => N::deserialize(UnitDeserializer::<VErr>::new()).ok(),
+    };
+    if let Some(v) = r {
+        v.valid().map_err(|f| Fail { sig: format!("{}/non_integer_carrier", f.sig), detail: format!("carrier #{}: {}", k, f.detail) })?;
+    }
+    Ok(true)
+}
+
 fn int_json<N: Nt + Valid + DeserializeOwned + Serialize>(v: &Value) -> CheckResult {
     let r = check_value::<N>(v)?;
     let num = json_int(v).filter(|_| v.is_number() && !v.is_f64());
@@ -264,6 +319,9 @@ fn run_ints_for<N: Nt + Valid + DeserializeOwned + Serialize>(ctx: &Ctx, subs: &
     }
     for v in odd_scalars() {
         sub.eval(1 << 40, || json!({"kind": "int_json", "type": N::NAME, "input": v}), || int_json::<N>(&v));
+    }
+    for k in 0..70usize {
+        sub.eval(1 << 41, || json!({"kind": "int_other_carrier", "type": N::NAME, "carrier": k}), || int_other_carriers::<N>(k));
     }
     for val in 0..=N::MAXV {
         let n = N::new_repr(val);
@@ -466,6 +524,115 @@ fn frame_case(fi: usize, a: &Value, form: u8) -> CheckResult {
     Ok(json_int(a).map_or(true, |n| !(0..=15).contains(&n)))
 }
 
+
+// ---------------------------------------------------------------------------------------------
+// Serialize - mutate - deserialize: the field names and shape come from the crate's own Serialize
+// output (so fields the harness does not know by name are covered too); every leaf of the value
+// tree is replaced by other values, fields are dropped, and whatever still deserializes must be valid.
+// ---------------------------------------------------------------------------------------------
+
+fn leaf_paths(v: &Value, prefix: Vec<String>, out: &mut Vec<Vec<String>>) {
+    match v {
+        Value::Object(m) => {
+            for (k, x) in m {
+                let mut p = prefix.clone();
+                p.push(k.clone());
+                leaf_paths(x, p, out);
+            }
+        }
+        Value::Array(a) => {
+            for (i, x) in a.iter().enumerate() {
+                let mut p = prefix.clone();
+                p.push(i.to_string());
+                leaf_paths(x, p, out);
+            }
+        }
+        _ => out.push(prefix),
+    }
+}
+
+fn set_path(v: &mut Value, path: &[String], new: Option<Value>) {
+    if path.is_empty() {
+        return;
+    }
+    let last = path.len() - 1;
+    let mut cur = v;
+    for (i, k) in path.iter().enumerate() {
+        let next = match cur {
+            Value::Object(m) => {
+                if i == last {
+                    match new {
+                        Some(n) => {
+                            m.insert(k.clone(), n);
+                        }
+                        None => {
+                            m.remove(k);
+                        }
+                    }
+                    return;
+                }
+                m.get_mut(k)
+            }
+            Value::Array(a) => {
+                let idx: usize = k.parse().unwrap_or(0);
+                if i == last {
+                    if let (Some(n), Some(slot)) = (new, a.get_mut(idx)) {
+                        *slot = n;
+                    }
+                    return;
+                }
+                a.get_mut(idx)
+            }
+            _ => None,
+        };
+        match next {
+            Some(n) => cur = n,
+            None => return,
+        }
+    }
+}
+
+fn mutate_and_check<T: Valid + DeserializeOwned + Serialize>(x: &T) -> CheckResult {
+    let base = serde_json::to_value(x).map_err(|e| Fail { sig: format!("{}/serialize_failed", T::TYPE), detail: e.to_string() })?;
+    let mut paths = Vec::new();
+    leaf_paths(&base, Vec::new(), &mut paths);
+    let replacements: Vec<Value> = [0i64, 1, 15, 16, 31, 32, 33, 63, 64, 127, 128, 255, 256, 16383, 16384, -1].iter().map(|n| json!(n)).chain([json!(true), json!(false), json!(null), json!("DataIncrement"), json!("DataDecrement"), json!("DataEntry")]).collect();
+    let mut accepted = 0;
+    for p in &paths {
+        for r in &replacements {
+            let mut v = base.clone();
+            set_path(&mut v, p, Some(r.clone()));
+            if let Ok(y) = serde_json::from_value::<T>(v.clone()) {
+                accepted += 1;
+                y.valid().map_err(|f| Fail { sig: format!("{}/mutated_field", f.sig), detail: format!("own serialization {} with {} := {} -> {}", base, p.join("."), r, f.detail) })?;
+            }
+        }
+        // dropping a field: accepted only if the result is valid
+        let mut v = base.clone();
+        set_path(&mut v, p, None);
+        if v != base {
+            if let Ok(y) = serde_json::from_value::<T>(v.clone()) {
+                y.valid().map_err(|f| Fail { sig: format!("{}/dropped_field", f.sig), detail: format!("own serialization {} without {} -> {}", base, p.join("."), f.detail) })?;
+                // and two fields at once (value + a flag)
+            }
+            for q in &paths {
+                if q == p {
+                    continue;
+                }
+                for r in &replacements {
+                    let mut w = v.clone();
+                    set_path(&mut w, q, Some(r.clone()));
+                    if let Ok(y) = serde_json::from_value::<T>(w.clone()) {
+                        accepted += 1;
+                        y.valid().map_err(|f| Fail { sig: format!("{}/dropped_and_mutated_field", f.sig), detail: format!("own serialization {} without {} and with {} := {} -> {}", base, p.join("."), q.join("."), r, f.detail) })?;
+                    }
+                }
+            }
+        }
+    }
+    Ok(accepted > 0)
+}
+
 // --- random value trees shaped like each type ----------------------------------------------------
 
 fn leaf_strategy() -> impl Strategy<Value = Value> {
@@ -555,7 +722,14 @@ fn check_tree_value(ty: &str, v: &Value) -> Result<bool, Fail> {
         "ParameterNumberMessage" => check_value::<ParameterNumberMessage>(v)?.is_some(),
         "StructuredShortMessage" => check_value::<StructuredShortMessage>(v)?.is_some(),
         "TimeCodeQuarterFrame" => check_value::<TimeCodeQuarterFrame>(v)?.is_some(),
-        "ShortMessageType" => check_value::<ShortMessageType>(v)?.is_some(),
+        "ShortMessageType" => match (&crate::impls::probe::<ShortMessageType>()).de_value(v) {
+            Some(Some(t)) => {
+                t.valid()?;
+                ensure!(v.as_u64().map_or(false, |b| b <= 255 && ref_type(b as u8) == Some(t)), "ShortMessageType/acceptance", "{} deserialized to {:?}", v, t);
+                true
+            }
+            _ => false,
+        },
         "TimeCodeType" => check_value::<TimeCodeType>(v)?.is_some(),
         "DataType" => check_value::<DataType>(v)?.is_some(),
         "U4" => check_value::<U4>(v)?.is_some(),
@@ -599,17 +773,20 @@ pub fn run_c19(ctx: &Ctx) -> Report {
         for b in 0..=255u8 {
             let v = json!(b);
             sub.eval(b as u128, || json!({"kind": "value", "type": "ShortMessageType", "input": v}), || {
-                let r = check_value::<ShortMessageType>(&v)?;
-                ensure!(r == ref_type(b), "ShortMessageType/acceptance", "{} -> {:?}, table says {:?}", b, r, ref_type(b));
-                let d: <u8 as IntoDeserializer<VErr>>::Deserializer = b.into_deserializer();
-                let t = ShortMessageType::deserialize(d).ok();
-                ensure!(t == ref_type(b), "ShortMessageType/acceptance_typed", "{} -> {:?}", b, t);
+                // (probe: only if ShortMessageType is deserializable in this configuration)
+                if let Some(r) = (&crate::impls::probe::<ShortMessageType>()).de_value(&v) {
+                    ensure!(r == ref_type(b), "ShortMessageType/acceptance", "{} -> {:?}, table says {:?}", b, r, ref_type(b));
+                }
+                if let Some(t) = (&crate::impls::probe::<ShortMessageType>()).de_u8(b) {
+                    ensure!(t == ref_type(b), "ShortMessageType/acceptance_typed", "{} -> {:?}", b, t);
+                }
                 Ok(ref_type(b).is_none())
             });
         }
         for v in odd_scalars().into_iter().chain([json!(256), json!(0x180), json!(-112)]) {
             sub.eval(1 << 20, || json!({"kind": "value", "type": "ShortMessageType", "input": v}), || check_tree_value("ShortMessageType", &v).map(|ok| !ok));
         }
+        #[cfg(feature = "hm_serde_repr")]
         for (_, t) in TYPE_TABLE.iter() {
             sub.eval(0, || rt_json(t), || roundtrip(t).map(|_| false));
         }
@@ -742,6 +919,40 @@ pub fn run_c19(ctx: &Ctx) -> Report {
         sub.samples.push(json!({"kind": "structured", "variant": 1, "a": 16, "b": 0, "c": 0, "form": 0}));
         subs.push(sub);
     }
+    // serialize - mutate - deserialize
+    {
+        let mut sub = Sub::new(
+            "serialize_mutate_deserialize",
+            "valid values of the four composite types are serialized by the crate itself; every leaf of that tree is replaced by 22 other values, every field is dropped (alone and together with a mutation of another field); whatever still deserializes must satisfy the validity predicate",
+            "non-trivial = at least one mutated tree was accepted",
+            true,
+        );
+        let mut k = 0u128;
+        for (ch, n, v) in [(0u8, 0u8, 0u16), (15, 31, 16383), (5, 7, 1057), (1, 6, 200)] {
+            let m = ControlChange14BitMessage::new(h_ch(ch), h_cn(n), h_u14(v));
+            k += 1;
+            sub.eval(k, || rt_json(&m), || mutate_and_check(&m));
+        }
+        for c in 0..8usize {
+            for (ch, number, value) in [(0u8, 0u16, 0u16), (15, 16383, crate::p_nrpn::value_max(c)), (3, 420, 100), (0, 6, 5)] {
+                let m = crate::p_nrpn::ctor_build(c, ch, number, value);
+                k += 1;
+                sub.eval(k, || rt_json(&m), || mutate_and_check(&m));
+            }
+        }
+        for bytes in [(0x90u8, 64u8, 100u8), (0xB5, 120, 0), (0xE1, 5, 3), (0xF2, 1, 2), (0xF8, 0, 0), (0x80, 127, 127)] {
+            let m = RawShortMessage::from_bytes((bytes.0, h_u7(bytes.1), h_u7(bytes.2))).unwrap();
+            k += 1;
+            sub.eval(k, || rt_json(&m), || mutate_and_check(&m));
+        }
+        for i in [0u64, 300_000, 600_000, 900_000, 1_052_700, 1_314_900, 1_314_950, 1_331_300, N_STRUCTURED - 1] {
+            let m = structured_by_index(i);
+            k += 1;
+            sub.eval(k, || rt_json(&m), || mutate_and_check(&m));
+        }
+        sub.samples.push(rt_json(&ControlChange14BitMessage::new(h_ch(5), h_cn(7), h_u14(1057))));
+        subs.push(sub);
+    }
     // JSON text specials: duplicated fields
     {
         let mut sub = Sub::new("json_text_specials", "hand-written JSON texts: duplicated fields, nested wrong types, huge numbers, trailing data", "every text", true);
@@ -816,6 +1027,11 @@ pub fn replay_c19(_sub: &str, case: &Value) -> Option<CheckResult> {
             macro_rules! t { ($($n:ident),*) => { match case["type"].as_str()? { $( stringify!($n) => Some(int_typed::<$n>(&src, x)), )* _ => None } }; }
             t!(U4, U7, U14, Channel, KeyNumber, ControllerNumber)
         }
+        "int_other_carrier" => {
+            let k = json_u64(&case["carrier"])? as usize;
+            macro_rules! t { ($($n:ident),*) => { match case["type"].as_str()? { $( stringify!($n) => Some(int_other_carriers::<$n>(k)), )* _ => None } }; }
+            t!(U4, U7, U14, Channel, KeyNumber, ControllerNumber)
+        }
         "int_json" => {
             let v = &case["input"];
             macro_rules! t { ($($n:ident),*) => { match case["type"].as_str()? { $( stringify!($n) => Some(int_json::<$n>(v)), )* _ => None } }; }
@@ -831,7 +1047,7 @@ pub fn replay_c19(_sub: &str, case: &Value) -> Option<CheckResult> {
         "roundtrip" => {
             let v = &case["json"];
             macro_rules! t { ($($n:ident),*) => { match case["type"].as_str()? { $( stringify!($n) => Some(replay_roundtrip::<$n>(v)), )* _ => None } }; }
-            t!(U4, U7, U14, Channel, KeyNumber, ControllerNumber, ShortMessageType, TimeCodeType, DataType, TimeCodeQuarterFrame, RawShortMessage, StructuredShortMessage, ControlChange14BitMessage, ParameterNumberMessage)
+            t!(U4, U7, U14, Channel, KeyNumber, ControllerNumber, TimeCodeType, DataType, TimeCodeQuarterFrame, RawShortMessage, StructuredShortMessage, ControlChange14BitMessage, ParameterNumberMessage)
         }
         _ => None,
     }
@@ -872,4 +1088,28 @@ pub fn run_c07_serde(ctx: &Ctx) -> Report {
         rule: "exhaustive over the controller numbers; creation through deserialization must agree with the constructor".into(),
         assumptions: vec!["configuration: features std + serde + serde_repr".into()],
     }
+}
+
+/// Secondary (serde) configuration of C04 / C09: the parts of the deserialization checks that
+/// concern the restricted integers resp. the (N)RPN message - deserialization is one more safe way
+/// to obtain such values.
+pub fn run_serde_part(ctx: &Ctx, prop: &str) -> Report {
+    let mut r = run_c19(ctx);
+    r.subs.retain(|s| match prop {
+        "C04" => s.name.starts_with("int_"),
+        _ => s.name == "parameter_number_message" || s.name == "serialize_mutate_deserialize" || s.name == "random_value_trees" || s.name == "json_text_specials",
+    });
+    for s in r.subs.iter_mut() {
+        s.degenerate = None;
+        if prop != "C04" {
+            // only failures about the (N)RPN message belong to C09
+            s.failures.retain(|k, _| k.contains("ParameterNumberMessage"));
+        }
+        for f in s.failures.values_mut() {
+            f.sub = format!("serde/{}", s.name);
+        }
+        s.name = format!("serde/{}", s.name);
+    }
+    r.rule = format!("secondary configuration (features std + serde + serde_repr) of {}: values obtained by deserialization satisfy the same invariants", prop);
+    r
 }
